@@ -215,6 +215,9 @@ func C02(c *core.Ctx) {
 	// `version:` alone (an empty model every time) and `version:` next to content, under one file name loaded again and again
 	pool = append(pool, c02Input{Name: "version:only", Dir: wd, Env: map[string]string{}, Files: []namedDoc{{Name: filepath.Join(wd, "v-only.yaml"), InMemory: true, Content: "version: \"3.8\"\n"}}})
 	pool = append(pool, c02Input{Name: "version:with-content", Dir: wd, Env: map[string]string{}, Files: []namedDoc{{Name: filepath.Join(wd, "v-content.yaml"), InMemory: true, Content: "version: \"3.8\"\nservices:\n  a: {image: i}\n"}}})
+	// keys and names that differ only by letter case, or only by a separator: every ordering must still be total
+	pool = append(pool, c02Input{Name: "order:near-equal-keys", Dir: wd, Env: map[string]string{}, Files: []namedDoc{{Name: filepath.Join(wd, "near.yaml"), InMemory: true,
+		Content: "services:\n  Web: {image: i}\n  web:\n    image: i\n    extra_hosts: ['Registry=1.1.1.1', 'registry=2.2.2.2', 'REGISTRY=3.3.3.3', 'registry=4.4.4.4']\n    labels: {Key: '1', key: '2', KEY: '3', k-ey: '4', k_ey: '5'}\n    environment: {Var: a, var: b, VAR: c}\n    depends_on: [Web, WEB]\n    networks: [Net, net]\n    dns: [1.1.1.1, 1.1.1.10, 1.1.1.2]\n    ports: ['80', '080:80', '8-10:8-10']\n    sysctls: {net.a: 1, net.A: 2}\n  WEB: {image: i}\nnetworks: {Net: {}, net: {}}\n"}}})
 	c.Set("input_pool", len(pool))
 
 	type ev struct {
